@@ -422,7 +422,7 @@ fn history_list(tier: Tier) -> Vec<Vec<HOp>> {
     for p in prefixes {
         out.push(p.clone());
         let heavy = p.iter().any(|o| matches!(o, HOp::Fill(n) if *n > 1000) || matches!(o, HOp::BigMsg(k) if *k > 1000));
-        if (heavy || p.len() >= 18) && tier == Tier::Quick {
+        if heavy && tier == Tier::Quick {
             continue;
         }
         for a in &base {
